@@ -129,6 +129,11 @@ class Prov:
             v = k["str"]
         elif v is None and "bytes" in k:
             v = "0x" + k["bytes"]
+        elif v is None and "ptr_bytes" in k:
+            try:
+                v = bytes.fromhex(k["ptr_bytes"]).decode("ascii")
+            except (UnicodeDecodeError, ValueError):
+                v = "0x" + k["ptr_bytes"]
         path = k.get("c")
         if path and k.get("ga"):
             path = "%s<%s>" % (path, k["ga"])
